@@ -138,24 +138,12 @@ func runPrec(c *Ctx, r *Reporter) {
 			tokOfSym[s] = k
 		}
 	}
-	prec := map[*types.Const]int64{}
-	precName := map[*types.Const]string{}
-	init := pkgVarInit(pkg, "precedences")
-	if init == nil {
-		r.Undecided("var precedences not found")
+	prec, precName, isPrecSource, precPos, perr := precTable(p, pkg, lexPkg)
+	if perr != "" {
+		r.Undecided("%s", perr)
 		return
 	}
-	for _, e := range mapLitEntries(init) {
-		k := constOf(pkg.TypesInfo, e.Key)
-		v, ok := constInt(pkg.TypesInfo, e.Value)
-		if k == nil || !ok {
-			r.Undecided("precedences: non-constant entry %s", types.ExprString(e.Key))
-			continue
-		}
-		prec[k] = v
-		precName[k] = types.ExprString(e.Value)
-	}
-	pos := p.Rel(init.Pos())
+	pos := p.Rel(precPos)
 	specSyms := map[string]bool{}
 	var maxBinary int64 = -1
 	for i, lv := range levels {
@@ -269,8 +257,7 @@ func runPrec(c *Ctx, r *Reporter) {
 					continue
 				}
 				_, isParam := bo.X.(*ssa.Parameter)
-				_, isLookup := bo.Y.(*ssa.Lookup)
-				if isParam && isLookup {
+				if isParam && isPrecSource(bo.Y) {
 					found = true
 					strict = bo.Op == token.LSS
 				}
@@ -287,7 +274,7 @@ func runPrec(c *Ctx, r *Reporter) {
 		for _, b := range sf.Blocks {
 			for _, ins := range b.Instrs {
 				if call, ok := ins.(*ssa.Call); ok && call.Call.StaticCallee() != nil && call.Call.StaticCallee().Name() == "parseExpr" {
-					if _, isLookup := call.Call.Args[1].(*ssa.Lookup); isLookup {
+					if isPrecSource(call.Call.Args[1]) {
 						okB = true
 					}
 				}
@@ -295,6 +282,120 @@ func runPrec(c *Ctx, r *Reporter) {
 		}
 		r.Check(okB, fd.QName()+"#right-power", p.Rel(fd.Decl.Pos()), "the right operand is parsed with the operator's own binding power", "parseBinaryExpr must parse the right operand with precedences[operator]")
 	}
+}
+
+// precTable finds the source of binding powers that the Pratt loop of parseExpr consults — a package-level map
+// indexed by the token type, or a function of the token type whose switch returns constants — and tabulates it.
+func precTable(p *Program, pkg, lexPkg *packages.Package) (map[*types.Const]int64, map[*types.Const]string, func(ssa.Value) bool, token.Pos, string) {
+	fd := FindFunc(pkg, "(*parser).parseExpr")
+	if fd == nil {
+		return nil, nil, nil, token.NoPos, "parseExpr not found"
+	}
+	sf := p.SSAFunc(fd.Obj)
+	var global *ssa.Global
+	var fn *ssa.Function
+	for _, b := range sf.Blocks {
+		for _, ins := range b.Instrs {
+			bo, ok := ins.(*ssa.BinOp)
+			if !ok || (bo.Op != token.LSS && bo.Op != token.LEQ && bo.Op != token.GTR && bo.Op != token.GEQ) {
+				continue
+			}
+			if _, isParam := bo.X.(*ssa.Parameter); !isParam {
+				continue
+			}
+			switch y := bo.Y.(type) {
+			case *ssa.Lookup:
+				if u, ok := y.X.(*ssa.UnOp); ok {
+					if g, ok := u.X.(*ssa.Global); ok {
+						global = g
+					}
+				}
+			case *ssa.Call:
+				if sc := y.Call.StaticCallee(); sc != nil && sc.Pkg != nil && sc.Pkg.Pkg == pkg.Types && len(sc.Params) == 1 {
+					fn = sc
+				}
+			}
+		}
+	}
+	prec := map[*types.Const]int64{}
+	precName := map[*types.Const]string{}
+	constName := func(v int64) string {
+		for _, k := range constsOfType(pkg.Types, "precedence") {
+			if n, ok := constant.Int64Val(k.Val()); ok && n == v {
+				return k.Name()
+			}
+		}
+		return fmt.Sprint(v)
+	}
+	switch {
+	case global != nil:
+		init := pkgVarInit(pkg, global.Name())
+		if init == nil {
+			return nil, nil, nil, token.NoPos, "initialiser of " + global.Name() + " not found"
+		}
+		for _, e := range mapLitEntries(init) {
+			k := constOf(pkg.TypesInfo, e.Key)
+			v, ok := constInt(pkg.TypesInfo, e.Value)
+			if k == nil || !ok {
+				return nil, nil, nil, token.NoPos, "binding-power table: non-constant entry " + types.ExprString(e.Key)
+			}
+			prec[k] = v
+			precName[k] = types.ExprString(e.Value)
+		}
+		is := func(v ssa.Value) bool {
+			lk, ok := v.(*ssa.Lookup)
+			if !ok {
+				return false
+			}
+			u, ok := lk.X.(*ssa.UnOp)
+			return ok && u.X == ssa.Value(global)
+		}
+		return prec, precName, is, init.Pos(), ""
+	case fn != nil:
+		tokByVal := map[int64]*types.Const{}
+		for _, k := range constsOfType(lexPkg.Types, "TokenType") {
+			if n, ok := constant.Int64Val(k.Val()); ok {
+				tokByVal[n] = k
+			}
+		}
+		cases := constCases(fn, func(v ssa.Value) bool { return v == ssa.Value(fn.Params[0]) })
+		for n, head := range cases {
+			tok := tokByVal[n]
+			if tok == nil {
+				continue
+			}
+			var vals []int64
+			for _, b := range regionOf(head) {
+				if len(b.Instrs) == 0 {
+					continue
+				}
+				if ret, ok := b.Instrs[len(b.Instrs)-1].(*ssa.Return); ok && len(ret.Results) == 1 {
+					k, ok := ret.Results[0].(*ssa.Const)
+					if !ok || k.Value == nil {
+						return nil, nil, nil, token.NoPos, "binding-power function " + fn.Name() + " returns a computed value for " + tok.Name()
+					}
+					v, _ := constant.Int64Val(k.Value)
+					vals = append(vals, v)
+				}
+			}
+			if len(vals) != 1 {
+				return nil, nil, nil, token.NoPos, fmt.Sprintf("binding-power function %s: %d returns in the case of %s", fn.Name(), len(vals), tok.Name())
+			}
+			if vals[0] > 0 { // the lowest power means: does not continue an expression
+				prec[tok] = vals[0]
+				precName[tok] = constName(vals[0])
+			}
+		}
+		if len(prec) == 0 {
+			return nil, nil, nil, token.NoPos, "binding-power function " + fn.Name() + ": no constant case recognised"
+		}
+		is := func(v ssa.Value) bool {
+			call, ok := v.(*ssa.Call)
+			return ok && call.Call.StaticCallee() == fn
+		}
+		return prec, precName, is, fn.Pos(), ""
+	}
+	return nil, nil, nil, token.NoPos, "parseExpr: the Pratt loop's comparison `prec < <binding power of the current token>` was not recognised"
 }
 
 // ---------------------------------------------------------------------------
